@@ -116,6 +116,15 @@ def generate(seed, tier, batch):
                     ops.append({"op": "Ggate", "useed": r.randrange(1 << 20), "m": [m]})
                     k += 1
                     continue
+                if f == "GaussianTransform" and j > 0 and ops[-1]["op"] == "GaussianTransform" and ops[-1].get("useed") is not None and r.random() < 0.45:
+                    # the second matrix undoes the first - exactly (a true identity), or up to a shear [[1, 0], [s, 1]]: the product then has a unit
+                    # diagonal like the identity and is no identity
+                    from ..spec import seeded_symplectic
+                    s1_ = seeded_symplectic(ops[-1]["useed"], 1)
+                    sh_ = np.array([[1.0, 0.0], [rnd(r, 0.2, 0.8) if r.random() < 0.7 else 0.0, 1.0]])
+                    ops.append({"op": "GaussianTransform", "mat": (sh_ @ np.linalg.inv(s1_)).tolist(), "m": [m]})
+                    k += 1
+                    continue
                 if f in ("GaussianTransform", "Interferometer"):
                     o = {"op": f, "useed": r.randrange(1 << 20) if not (f == "Interferometer" and r.random() < 0.25) else -1, "m": [m]}
                     if f == "Interferometer" and r.random() < 0.3:
